@@ -82,6 +82,7 @@ func genC15(d *Draw) Case {
 		opts.DataConds = d.Bool()
 		opts.XPath = d.Bool()
 		opts.ActivityDefault = d.Bool()
+		opts.EmptyBranches = d.Bool()
 		prog := GenProgram(d, opts)
 		pc := &ProcCase{Prog: prog, Buf: d.N(17), Hold: d.N(3)}
 		pc.Picks = drawPicks(d, 48)
